@@ -118,6 +118,13 @@ CLAIMS["C11"] = ("CFG dominance and decision paths in process_stage2_find_dt / b
     "backward walk after a message was read. Does not decide the dates inferred for concrete logs.",
     "DESIGN.md §3 C11")
 
+CLAIMS["C17"] = ("decision-path enumeration of the streaming loop (release call on every way round), call-graph must-call chain through the seven drop levels with per-level container removal, loop-exit classification of drop_lines, const-evaluated switches, sibling rule over the streamed decoders",
+    "Static necessary-condition check that the release path exists and runs on every iteration: drop_data_try(previous) on every way round the "
+    "streaming loop, live seven-level drop chain with each level removing from its own container, drop_lines releasing every line, drop "
+    "switches constant true, streamed decoders dropping the previous block in their decode loop. It does NOT decide the memory bound itself "
+    "(run-time Arc counts, lag of the printing thread).",
+    "DESIGN.md §3 C17")
+
 NA_REASON = {}
 
 checks = []
